@@ -106,7 +106,7 @@ def build_config(world, job):
     """contracts / opaque effects visible to this job (declared in the sidecar module and its `uses`)."""
     modname = job["module"]
     mod, _, _ = load_sidecar(modname)
-    cfg = {"contracts": {}, "opaques": {}, "forbidden": set(), "invariants": {}}
+    cfg = {"contracts": {}, "opaques": {}, "forbidden": set(), "invariants": {}, "safety_known": {}}
     mods = [modname] + list(getattr(mod, "USES", []))
     for mn in mods:
         m, _, contracts = load_sidecar(mn)
@@ -119,6 +119,7 @@ def build_config(world, job):
             else:
                 cfg["opaques"][target] = world.resolve_target(f"{mn.replace('.', '/')}.py::{eff}", root=VERIF)
         cfg["forbidden"] |= set(getattr(m, "FORBIDDEN", []))
+        cfg["safety_known"].update(getattr(m, "SAFETY_KNOWN", {}))
     inline = set(job["opts"].get("inline", []) or [])
     for t in inline:
         cfg["contracts"].pop(t, None)
@@ -161,6 +162,7 @@ def run_path(task):
             cfg["verifying"] = job["target"]
         run = Run(decisions, job_name=job["id"], known_findings=task.get("known_findings"),
                   ob_timeout_ms=task.get("ob_timeout_ms", 30000))
+        run.safety_known = cfg.get("safety_known", {})
         interp = Interp(world, run, cfg)
         try:
             if job["kind"] == "harness":
